@@ -21,6 +21,10 @@ def suites(ctx):
     from suites import calendar_ as cal
     out = [l1.run_suite("clock", clock_suite.gen, n, unit="clock"),
            l1.run_suite("calendar", cal.gen, 4000 if ctx["tier"] == "quick" else 40000, seed_names=("C07",), unit="calendar")]
+    from suites import runc
+    r = runc.run_custom(40 if ctx["tier"] == "quick" else 400, "C07")       # the calendar of whole concrete runs
+    r["ties"] = "RunConcrete.v: whole runs (clock + concrete days + season resets) against the implementation's tables"
+    out.append(r)
     if ctx["tier"] != "quick":     # exhaustive over pandas' Timestamp range (213 503 days) + samples of datetime's range
         out.append(l1.run_suite("calendar_dates", cal.gen_dates, 20000, unit="calendar"))
     return out
